@@ -15,12 +15,12 @@ const (
 
 func init() {
 	register(&Property{
-		ID:        "C14",
-		Title:     "NTLM verifier authenticates only proof of the configured password",
-		DesignRef: "DESIGN.md §3 C14",
-		Technique: "who-may-write inventory of NtlmResponse.Authenticated + edge-cut guarded reachability of the accepting store + SSA value identity (same user/password/session) + pairing rule: the session context is dropped on every path on which no challenge is outstanding",
-		LevelText: "Static: the only non-false store to NtlmResponse.Authenticated is in ntlmContext.authenticate and is reachable only over: a session exists, the configured password of the user named in the message is non-empty, and ProcessAuthenticateMessage on that same session succeeded after SetUserInfo with exactly that user and password; the user name returned is that same value. Sessions are created only by negotiate, fresh per negotiate (new challenge). Contexts are keyed by the caller's session string; after the verifier examined a message the context is removed on every path except when a challenge was just issued, so a server session never examines two authenticate messages (go-ntlm caches the first user's response keys). Empty session or message is refused before any lookup. Decides who can set the flag and under which checked conditions; the NTLMv2 mathematics is go-ntlm's.",
-		LevelNote: "Trusted: go-ntlm ProcessAuthenticateMessage (NTLMv2 response against the stored challenge), go-cache. Not decided: the liveness clause (a correct client is always authenticated) and cache expiry timing.",
+		ID:          "C14",
+		Title:       "NTLM verifier authenticates only proof of the configured password",
+		DesignRef:   "DESIGN.md §3 C14",
+		Technique:   "who-may-write inventory of NtlmResponse.Authenticated + edge-cut guarded reachability of the accepting store + SSA value identity (same user/password/session) + pairing rule: the session context is dropped on every path on which no challenge is outstanding",
+		LevelText:   "Static: the only non-false store to NtlmResponse.Authenticated is in ntlmContext.authenticate and is reachable only over: a session exists, the configured password of the user named in the message is non-empty, and ProcessAuthenticateMessage on that same session succeeded after SetUserInfo with exactly that user and password; the user name returned is that same value. Sessions are created only by negotiate, fresh per negotiate (new challenge). Contexts are keyed by the caller's session string; after the verifier examined a message the context is removed on every path except when a challenge was just issued, so a server session never examines two authenticate messages (go-ntlm caches the first user's response keys). Empty session or message is refused before any lookup. Decides who can set the flag and under which checked conditions; the NTLMv2 mathematics is go-ntlm's.",
+		LevelNote:   "Trusted: go-ntlm ProcessAuthenticateMessage (NTLMv2 response against the stored challenge), go-cache. Not decided: the liveness clause (a correct client is always authenticated) and cache expiry timing.",
 		Explanation: "C14/accept-site inventories all stores to NtlmResponse.Authenticated and cuts the CFG edges of the three required conditions; argument identity ties SetUserInfo, GetPassword, ProcessAuthenticateMessage and the returned name to one user value and one session. C14/session-origin inventories writers of ntlmContext.session. C14/context-scope checks keys and the removal rule in NTLMAuth.Authenticate. C14/empty-args checks the early refusals. C14/database checks the exact-key password lookup.",
 		Assumptions: []string{"go-ntlm's ServerSession verifies the NTLMv2 response against the challenge it generated in the same session"},
 		Rules: []RuleDef{
@@ -290,15 +290,23 @@ func c14ContextScope(c *Ctx) {
 			}
 		})
 	}
-	// getContext / removeContext use the given key on the cache
-	for _, name := range []string{"NTLMAuth.getContext", "NTLMAuth.removeContext"} {
-		f := c.Fn("cmd/auth/ntlm", name)
+	// every access to the context cache is keyed by the request's own Session (followed up through
+	// the parameters of getContext / removeContext and any helper between them and the cache)
+	nKeys := 0
+	for _, f := range c.allFirstPartyFuncs() {
+		if f.Pkg == nil || f.Pkg.Pkg.Path() != ntlmPkgPath {
+			continue
+		}
 		for _, ci := range callsIn(f) {
 			n := calleeName(ci)
 			if n == "(*"+cachePkg+".cache).Get" || n == "(*"+cachePkg+".cache).Set" || n == "(*"+cachePkg+".cache).Delete" {
-				c.Check(arg(ci, 0) == ssa.Value(f.Params[1]), rule, name+" "+n[len(n)-3:]+" key", ci.Pos(), "cache keyed by the session parameter", "the context cache is not keyed by the session parameter itself")
+				nKeys++
+				c.Check(c.allUp(arg(ci, 0), sessField), rule, "NTLMAuth."+f.Name()+" "+n[len(n)-3:]+" key", ci.Pos(), "cache keyed by the request's Session", "the context cache is not keyed by the request's Session itself")
 			}
 		}
+	}
+	if nKeys < 3 {
+		c.Undecided(rule, "cache keys", fn.Pos(), "found %d context cache accesses (Get, Set, Delete confirmed by hand)", nKeys)
 	}
 	c.Floor(rule, 8, "keys, 3 keep conditions, challenge writer, cache keys")
 }
@@ -326,7 +334,6 @@ func c14EmptyArgs(c *Ctx) {
 		c.Check(ok, rule, key+" nonempty "+f, getCtx.Pos(), "context lookup only with a non-empty "+f, "the context lookup is "+why+" of "+f+" != \"\"")
 	}
 }
-
 
 func c14Database(c *Ctx) {
 	rule := "C14/database"
